@@ -216,7 +216,8 @@ class _WindSock:
 
     def vector_for_range(self, next_range: float) -> "Vector":
         """Updates the wind vector if `next_range` surpasses `self.next_range`."""
-        if next_range >= self.next_range:
+        # several segments may end at or before next_range (equal or closely spaced until-distances)
+        while next_range >= self.next_range and self.current < self._length:
             self.current += 1
             if self.current >= self._length:
                 self._last_vector_cache = Vector(0.0, 0.0, 0.0)
